@@ -4,6 +4,7 @@ From Coq Require Import List Arith Bool NArith.
 From GV Require Import Base.Result Gen.TokenTypes Gen.Defs Model.Parser Spec.Layout Spec.LayoutSim
   Proofs.C03.Bounded4 Proofs.C18.Bounded Proofs.C18.Sim Proofs.C18.Trim Proofs.C18.Main
   Proofs.C18.Insert Proofs.C18.Always.
+From GV Require Import Spec.RefTable Spec.Pratt Spec.Chains Proofs.C18.ViaPratt.
 Import ListNotations.
 
 (* The parser model takes a list of token TYPES: the text of a whitespace run, of an
@@ -209,3 +210,80 @@ Example C18_K1_parens_after_operandless_block_refuted :
   parse_tree [TT_Number; TT_Whitespace; TT_StartSideEffect; TT_Number; TT_EndSideEffect; TT_Whitespace;
               TT_StartGroup; TT_Number; TT_EndGroup] <> None.
 Proof. vm_compute. repeat split; try reflexivity; discriminate. Qed.
+
+(* ------------------------------------------------------------------------------------
+   Unbounded, on the operator fragment, through the reference parser of C02 and C02_full.
+   The reference [pratt] is defined exactly on the operator expressions (values, prefix /
+   suffix / binary operators, the implicit space list, round brackets nested to any depth,
+   whitespace anywhere); there [parse] accepts and its tree is the image [rg false t] of the
+   reference tree [t] under a map that ignores token indices (an identifier directly to the
+   right of `.` is stored as Property). *)
+Theorem C18_parse_tree_is_reference_image : forall (toks : list token_type) (t : rtree),
+  pratt toks = Some t -> parse_tree toks = Some (rg false t).
+Proof. exact parse_tree_pratt. Qed.
+Print Assumptions C18_parse_tree_is_reference_image.
+
+(* (a) layout that does not change the item list of the reference (token indices apart) does
+   not change acceptance or the tree *)
+Theorem C18_same_items_same_tree_operator_expressions :
+  forall (toks toks' : list token_type) (its its' : list item) (t : rtree),
+  items_of toks 0 None false = Some its -> items_of toks' 0 None false = Some its' ->
+  map untok_item its = map untok_item its' -> pratt toks = Some t ->
+  opt_gtree_eqb (parse_tree toks) (parse_tree toks') = true /\ parse_tree toks <> None.
+Proof. exact same_items_same_tree_b. Qed.
+Print Assumptions C18_same_items_same_tree_operator_expressions.
+
+(* ... in particular a whitespace token may be added or removed in ANY gap of an operator
+   expression of any length, except between the end of a value and the start of one (there it
+   is the list operator): [gap_neutral pre post] says that the last non-whitespace token of
+   [pre] does not end a value (value, suffix operator, closing bracket) or the first
+   non-whitespace token of [post] does not start one (value, prefix operator, opening
+   bracket).  Either spelling may be the one known to be an expression. *)
+Theorem C18_whitespace_where_allowed_operator_expressions : forall pre post : list token_type,
+  gap_neutral pre post = true ->
+  (exists t, pratt (pre ++ post) = Some t) \/ (exists t, pratt (pre ++ [TT_Whitespace] ++ post) = Some t) ->
+  opt_gtree_eqb (parse_tree (pre ++ post)) (parse_tree (pre ++ [TT_Whitespace] ++ post)) = true /\
+  parse_tree (pre ++ post) <> None.
+Proof. exact whitespace_where_allowed_b. Qed.
+Print Assumptions C18_whitespace_where_allowed_operator_expressions.
+
+(* (b) round brackets around a whole operator expression of any length change the tree only
+   by the group node (the unbounded form of the clause [paren_ok] of the bounded theorem) *)
+Theorem C18_parens_operator_expressions : forall (toks : list token_type) (t : rtree),
+  pratt toks = Some t ->
+  exists g g', parse_tree toks = Some g /\
+               parse_tree (TT_StartGroup :: toks ++ [TT_EndGroup]) = Some g' /\
+               strip_groups g' = strip_groups g.
+Proof. exact parens_whole_program. Qed.
+Print Assumptions C18_parens_operator_expressions.
+
+(* non-vacuity: `(a + b)*-c.d~~ e` -- whitespace around `*` is free (`)` ends a value but `*`
+   does not start one), the gap before `e` is not (there whitespace is the list operator and
+   removing it is an error), and the theorems' hypotheses hold *)
+Definition ex_vp_pre : list token_type :=
+  [TT_StartGroup; TT_Identifier; TT_Whitespace; TT_PlusSign; TT_Whitespace; TT_Identifier; TT_EndGroup].
+Definition ex_vp_post : list token_type :=
+  [TT_MultiplicationSign; TT_Opposite; TT_Identifier; TT_Period; TT_Identifier; TT_EmptyApply; TT_Whitespace; TT_Identifier].
+Example C18_ex_via_pratt :
+  gap_neutral ex_vp_pre ex_vp_post = true /\
+  (exists t, pratt (ex_vp_pre ++ ex_vp_post) = Some t) /\
+  (exists l x r, parse_tree (ex_vp_pre ++ ex_vp_post)
+                 = Some (GN D_List (GN D_MultiplicationSign l (GN D_Opposite GLeaf x)) r) /\
+                 x = GN D_EmptyApply (GN D_Access (GN D_Identifier GLeaf GLeaf) (GN D_Property GLeaf GLeaf)) GLeaf) /\
+  gap_neutral (ex_vp_pre ++ firstn 6 ex_vp_post) (skipn 7 ex_vp_post) = false /\
+  parse_tree (ex_vp_pre ++ firstn 6 ex_vp_post ++ skipn 7 ex_vp_post) = None.
+Proof.
+  vm_compute. split; [reflexivity|]. split; [eexists; reflexivity|]. split; [|split; reflexivity].
+  eexists _, _, _. split; reflexivity.
+Qed.
+Example C18_ex_via_pratt_instances :
+  opt_gtree_eqb (parse_tree (ex_vp_pre ++ ex_vp_post)) (parse_tree (ex_vp_pre ++ [TT_Whitespace] ++ ex_vp_post)) = true /\
+  (exists g g', parse_tree (ex_vp_pre ++ ex_vp_post) = Some g /\
+                parse_tree (TT_StartGroup :: (ex_vp_pre ++ ex_vp_post) ++ [TT_EndGroup]) = Some g' /\
+                strip_groups g' = strip_groups g).
+Proof.
+  split.
+  - apply C18_whitespace_where_allowed_operator_expressions; [reflexivity|]. left. vm_compute. eexists; reflexivity.
+  - destruct (pratt (ex_vp_pre ++ ex_vp_post)) as [t|] eqn:E; [|vm_compute in E; discriminate E].
+    exact (C18_parens_operator_expressions _ t E).
+Qed.
